@@ -942,11 +942,22 @@ let fzpow k x = function
 | Zpos p -> fpow k x (Coq_Pos.to_nat p)
 | Zneg p -> k.oinv (fpow k x (Coq_Pos.to_nat p))
 
+(** val two : ops -> car **)
+
+let two k =
+  k.oadd k.o1 k.o1
+
 (** val fsum : ops -> car list -> car **)
 
 let rec fsum k = function
 | [] -> k.o0
 | x :: r -> k.oadd x (fsum k r)
+
+(** val fprod : ops -> car list -> car **)
+
+let rec fprod k = function
+| [] -> k.o1
+| x :: r -> k.omul x (fprod k r)
 
 (** val qcOps : ops **)
 
@@ -3681,6 +3692,392 @@ let run_c18 sub0 a =
             (qcs (skipn (S (S O)) a))))
    | _ -> [])
 
+(** val sqr : ops -> car -> car **)
+
+let sqr k x =
+  k.omul x x
+
+(** val sumsq : ops -> car list -> car **)
+
+let sumsq k u =
+  fsum k (map (sqr k) u)
+
+(** val vsub : ops -> car list -> car list -> car list **)
+
+let vsub k u r =
+  map (fun p -> k.osub (fst p) (snd p)) (combine u r)
+
+(** val ssub : ops -> car cx list -> car cx list -> car cx list **)
+
+let ssub k u r =
+  map (fun p -> csub k (fst p) (snd p)) (combine u r)
+
+(** val zrange0 : z -> z list **)
+
+let zrange0 n =
+  map Z.of_nat (seq O (Z.to_nat n))
+
+(** val idx_grid : z list -> z list list **)
+
+let rec idx_grid = function
+| [] -> [] :: []
+| n :: r -> flat_map (fun j -> map (fun x -> j :: x) (idx_grid r)) (zrange0 n)
+
+(** val half_indices : nat -> z -> z list list **)
+
+let half_indices d n =
+  idx_grid (wavenumber_shape d n)
+
+(** val vol : ops -> nat -> z -> car -> car **)
+
+let vol k d n l =
+  fpow k (k.odiv l (fz k n)) d
+
+(** val spatial_agg :
+    ops -> (car -> car) -> nat -> z -> car -> car list -> car **)
+
+let spatial_agg k root d n l u =
+  root (k.omul (vol k d n l) (sumsq k u))
+
+(** val combine_spatial : ops -> z -> car -> car -> car -> car **)
+
+let combine_spatial k mode d s r =
+  if Z.eqb mode (Zpos XH)
+  then k.odiv d r
+  else if Z.eqb mode (Zpos (XO XH))
+       then k.odiv (k.omul (two k) d) (k.oadd s r)
+       else d
+
+(** val combine_fourier : ops -> z -> car -> car -> car -> car **)
+
+let combine_fourier k mode d _ r =
+  if Z.eqb mode (Zpos XH) then k.odiv d r else d
+
+(** val norm_gen :
+    ops -> ('a1 -> car) -> ('a1 -> 'a1 -> 'a1) -> (z -> car -> car -> car ->
+    car) -> bool -> z -> 'a1 list -> 'a1 list option -> car option **)
+
+let norm_gen k agg sub0 comb raises mode u ref =
+  if raises
+  then None
+  else (match ref with
+        | Some r ->
+          Some
+            (fsum k
+              (map (fun p ->
+                comb mode (agg (sub0 (fst p) (snd p))) (agg (fst p))
+                  (agg (snd p))) (combine u r)))
+        | None -> Some (fsum k (map agg u)))
+
+(** val is_none : 'a1 option -> bool **)
+
+let is_none = function
+| Some _ -> false
+| None -> true
+
+(** val spatial_norm :
+    ops -> (car -> car) -> nat -> z -> car -> z -> car list list -> car list
+    list option -> car option **)
+
+let spatial_norm k root d n l mode u ref =
+  norm_gen k (spatial_agg k root d n l) (vsub k) (combine_spatial k)
+    (spatial_norm_raises (is_none ref) mode) mode u ref
+
+(** val axis_scaling : ops -> z -> z -> bool -> z -> car **)
+
+let axis_scaling k n k0 last0 den =
+  if axis_plain n k0 last0 then fz k n else k.odiv (fz k n) (fz k den)
+
+(** val scaling_recon : ops -> nat -> z -> z list -> car **)
+
+let scaling_recon k d n idx0 =
+  fprod k
+    (map (fun c ->
+      let last0 = Nat.eqb c (sub d (S O)) in
+      axis_scaling k n (wn d n c idx0) last0
+        (if last0 then Zpos (XO XH) else Zpos XH)) (seq O d))
+
+(** val band_mask : nat -> z -> z option -> z option -> z list -> bool **)
+
+let band_mask d n low high idx0 =
+  match low with
+  | Some _ ->
+    let lo = match low with
+             | Some l -> l
+             | None -> Z0 in
+    let hi =
+      match high with
+      | Some h -> h
+      | None -> Z.add (Z.div n (Zpos (XO XH))) (Zpos XH)
+    in
+    (&&) (negb (low_pass_axis d n (Z.sub lo (Zpos XH)) idx0))
+      (low_pass_axis d n hi idx0)
+  | None ->
+    (match high with
+     | Some _ ->
+       let lo = match low with
+                | Some l -> l
+                | None -> Z0 in
+       let hi =
+         match high with
+         | Some h -> h
+         | None -> Z.add (Z.div n (Zpos (XO XH))) (Zpos XH)
+       in
+       (&&) (negb (low_pass_axis d n (Z.sub lo (Zpos XH)) idx0))
+         (low_pass_axis d n hi idx0)
+     | None -> true)
+
+(** val cpow : ops -> car cx -> nat -> car cx **)
+
+let cpow k z0 m =
+  Obj.magic fpow (cOps k) z0 m
+
+(** val dop_axis :
+    ops -> car -> car -> nat -> z -> nat -> z list -> car cx **)
+
+let dop_axis k tau l d n d0 idx0 =
+  { re = k.o0; im = (k.omul (k.odiv tau l) (fz k (wn d n d0 idx0))) }
+
+type spectrum = (z list * car cx) list
+
+(** val with_idx : ops -> nat -> z -> car cx list -> spectrum **)
+
+let with_idx _ d n spec =
+  combine (half_indices d n) spec
+
+(** val apply_mask :
+    ops -> nat -> z -> z option -> z option -> spectrum -> spectrum **)
+
+let apply_mask k d n low high s =
+  map (fun p -> ((fst p),
+    (if band_mask d n low high (fst p) then snd p else c0 k))) s
+
+(** val apply_deriv :
+    ops -> car -> car -> nat -> z -> nat -> nat -> spectrum -> spectrum **)
+
+let apply_deriv k tau l d n d0 m s =
+  map (fun p -> ((fst p),
+    (cmul k (snd p) (cpow k (dop_axis k tau l d n d0 (fst p)) m)))) s
+
+(** val agg_channel :
+    ops -> (car -> car) -> nat -> z -> car -> spectrum -> car **)
+
+let agg_channel k root d n l s =
+  root
+    (k.omul (vol k d n l)
+      (fsum k
+        (map (fun p ->
+          k.odiv (cnorm2 k (snd p)) (scaling_recon k d n (fst p))) s)))
+
+(** val fourier_agg :
+    ops -> (car -> car) -> nat -> z -> car -> car -> z option -> z option ->
+    nat option -> car cx list -> car **)
+
+let fourier_agg k root d n l tau low high dord spec =
+  let s = apply_mask k d n low high (with_idx k d n spec) in
+  (match dord with
+   | Some m ->
+     fsum k
+       (map (fun d0 ->
+         agg_channel k root d n l (apply_deriv k tau l d n d0 m s)) (seq O d))
+   | None -> agg_channel k root d n l s)
+
+(** val fourier_norm :
+    ops -> (car -> car) -> nat -> z -> car -> car -> z option -> z option ->
+    nat option -> z -> car cx list list -> car cx list list option -> car
+    option **)
+
+let fourier_norm k root d n l tau low high dord mode u ref =
+  norm_gen k (fourier_agg k root d n l tau low high dord) (ssub k)
+    (combine_fourier k) (fourier_norm_raises (is_none ref) mode) mode u ref
+
+(** val oadd2 : ops -> car option -> car option -> car option **)
+
+let oadd2 k a b =
+  match a with
+  | Some x -> (match b with
+               | Some y -> Some (k.oadd x y)
+               | None -> None)
+  | None -> None
+
+(** val h1_norm :
+    ops -> (car -> car) -> nat -> z -> car -> car -> z option -> z option ->
+    z -> car cx list list -> car cx list list option -> car option **)
+
+let h1_norm k root d n l tau low high mode u ref =
+  oadd2 k (fourier_norm k root d n l tau low high None mode u ref)
+    (fourier_norm k root d n l tau low high (Some (S O)) mode u ref)
+
+(** val dot : ops -> car list -> car list -> car **)
+
+let dot k u v =
+  fsum k (map (fun p -> k.omul (fst p) (snd p)) (combine u v))
+
+(** val corr2_channel : ops -> car list -> car list -> car **)
+
+let corr2_channel k u v =
+  k.odiv (sqr k (dot k u v)) (k.omul (sumsq k u) (sumsq k v))
+
+(** val mean_metric : ops -> car list -> car **)
+
+let mean_metric k vals =
+  k.odiv (fsum k vals) (fz k (Z.of_nat (length vals)))
+
+(** val idK : ops -> car -> car **)
+
+let idK _ x =
+  x
+
+(** val optq : car option -> q list **)
+
+let optq = function
+| Some x -> { qnum = (Zpos XH); qden = XH } :: ((qcq (Obj.magic x)) :: [])
+| None -> { qnum = Z0; qden = XH } :: []
+
+(** val optz : q -> q -> z option **)
+
+let optz flag v =
+  if qb flag then Some (qz v) else None
+
+(** val run_c16 : z -> q list -> q list **)
+
+let run_c16 sub0 a =
+  let idq = idK qcOps in
+  (match sub0 with
+   | Zpos p ->
+     (match p with
+      | XI p0 ->
+        (match p0 with
+         | XI _ -> []
+         | XO p1 ->
+           (match p1 with
+            | XH -> (qcq (Obj.magic mean_metric qcOps (qcs a))) :: []
+            | _ -> [])
+         | XH ->
+           let mode = qz (getq a O) in
+           let d = qn (getq a (S O)) in
+           let n = qz (getq a (S (S O))) in
+           let l = qqc (getq a (S (S (S O)))) in
+           let tau = qqc (getq a (S (S (S (S O))))) in
+           let low =
+             optz (getq a (S (S (S (S (S O))))))
+               (getq a (S (S (S (S (S (S O)))))))
+           in
+           let high =
+             optz (getq a (S (S (S (S (S (S (S O))))))))
+               (getq a (S (S (S (S (S (S (S (S O)))))))))
+           in
+           let dord =
+             if qb (getq a (S (S (S (S (S (S (S (S (S O))))))))))
+             then Some (qn (getq a (S (S (S (S (S (S (S (S (S (S O))))))))))))
+             else None
+           in
+           let has_ref =
+             qb (getq a (S (S (S (S (S (S (S (S (S (S (S O))))))))))))
+           in
+           let c =
+             qn (getq a (S (S (S (S (S (S (S (S (S (S (S (S O)))))))))))))
+           in
+           let m =
+             qn (getq a (S (S (S (S (S (S (S (S (S (S (S (S (S O))))))))))))))
+           in
+           let vals =
+             skipn (S (S (S (S (S (S (S (S (S (S (S (S (S (S O)))))))))))))) a
+           in
+           let u = chunks m c (take_cx vals) in
+           let r = chunks m c (take_cx (skipn (mul (mul (S (S O)) c) m) vals))
+           in
+           let ref = if has_ref then Some r else None in
+           optq
+             (if Z.eqb sub0 (Zpos (XO XH))
+              then fourier_norm qcOps idq d n (Obj.magic l) (Obj.magic tau)
+                     low high dord mode (Obj.magic u) (Obj.magic ref)
+              else h1_norm qcOps idq d n (Obj.magic l) (Obj.magic tau) low
+                     high mode (Obj.magic u) (Obj.magic ref)))
+      | XO p0 ->
+        (match p0 with
+         | XI p1 ->
+           (match p1 with
+            | XH ->
+              let d = qn (getq a O) in
+              let n = qz (getq a (S O)) in
+              let low = optz (getq a (S (S O))) (getq a (S (S (S O)))) in
+              let high =
+                optz (getq a (S (S (S (S O))))) (getq a (S (S (S (S (S O))))))
+              in
+              let idx0 = zs (skipn (S (S (S (S (S (S O)))))) a) in
+              (qcq (Obj.magic scaling_recon qcOps d n idx0)) :: ((bq
+                                                                   (band_mask
+                                                                    d n low
+                                                                    high idx0)) :: [])
+            | _ -> [])
+         | XO p1 ->
+           (match p1 with
+            | XH ->
+              let p2 = qn (getq a O) in
+              let u = qcs (firstn p2 (skipn (S O) a)) in
+              let v = qcs (skipn (add (S O) p2) a) in
+              (qcq (Obj.magic corr2_channel qcOps u v)) :: ((qcq
+                                                              (Obj.magic dot
+                                                                qcOps u v)) :: [])
+            | _ -> [])
+         | XH ->
+           let mode = qz (getq a O) in
+           let d = qn (getq a (S O)) in
+           let n = qz (getq a (S (S O))) in
+           let l = qqc (getq a (S (S (S O)))) in
+           let tau = qqc (getq a (S (S (S (S O))))) in
+           let low =
+             optz (getq a (S (S (S (S (S O))))))
+               (getq a (S (S (S (S (S (S O)))))))
+           in
+           let high =
+             optz (getq a (S (S (S (S (S (S (S O))))))))
+               (getq a (S (S (S (S (S (S (S (S O)))))))))
+           in
+           let dord =
+             if qb (getq a (S (S (S (S (S (S (S (S (S O))))))))))
+             then Some (qn (getq a (S (S (S (S (S (S (S (S (S (S O))))))))))))
+             else None
+           in
+           let has_ref =
+             qb (getq a (S (S (S (S (S (S (S (S (S (S (S O))))))))))))
+           in
+           let c =
+             qn (getq a (S (S (S (S (S (S (S (S (S (S (S (S O)))))))))))))
+           in
+           let m =
+             qn (getq a (S (S (S (S (S (S (S (S (S (S (S (S (S O))))))))))))))
+           in
+           let vals =
+             skipn (S (S (S (S (S (S (S (S (S (S (S (S (S (S O)))))))))))))) a
+           in
+           let u = chunks m c (take_cx vals) in
+           let r = chunks m c (take_cx (skipn (mul (mul (S (S O)) c) m) vals))
+           in
+           let ref = if has_ref then Some r else None in
+           optq
+             (if Z.eqb sub0 (Zpos (XO XH))
+              then fourier_norm qcOps idq d n (Obj.magic l) (Obj.magic tau)
+                     low high dord mode (Obj.magic u) (Obj.magic ref)
+              else h1_norm qcOps idq d n (Obj.magic l) (Obj.magic tau) low
+                     high mode (Obj.magic u) (Obj.magic ref)))
+      | XH ->
+        let mode = qz (getq a O) in
+        let d = qn (getq a (S O)) in
+        let n = qz (getq a (S (S O))) in
+        let l = qqc (getq a (S (S (S O)))) in
+        let has_ref = qb (getq a (S (S (S (S O))))) in
+        let c = qn (getq a (S (S (S (S (S O)))))) in
+        let p0 = qn (getq a (S (S (S (S (S (S O))))))) in
+        let vals = skipn (S (S (S (S (S (S (S O))))))) a in
+        let u = chunks p0 c (qcs vals) in
+        let r = chunks p0 c (qcs (skipn (mul c p0) vals)) in
+        optq
+          (spatial_norm qcOps idq d n (Obj.magic l) mode u
+            (if has_ref then Some r else None)))
+   | _ -> [])
+
 (** val set0 : ops -> car list -> car list -> car list **)
 
 let set0 _ l xs =
@@ -4899,7 +5296,12 @@ let run id a =
                            | XH -> run_c20 sub0 a
                            | _ -> [])
                | XH -> run_c12 sub0 a)
-            | XO _ -> []
+            | XO p2 ->
+              (match p2 with
+               | XO p3 -> (match p3 with
+                           | XH -> run_c16 sub0 a
+                           | _ -> [])
+               | _ -> [])
             | XH -> run_c04 sub0 a)
          | XH -> run_c02 sub0 a)
       | XH ->
